@@ -337,6 +337,7 @@ class BaseProject(object, metaclass=ABCMeta):
             if working:
                 self.__allocate(
                     task_priority_rule=task_priority_rule,
+                    unit_time=unit_time,
                 )
             
             # Update state of task newly allocated workers and facilities (READY -> WORKING)
@@ -537,6 +538,7 @@ class BaseProject(object, metaclass=ABCMeta):
     def __allocate(
         self,
         task_priority_rule=TaskPriorityRuleMode.TSLACK,
+        unit_time=1,
     ):
         # 1. Get ready task and free workers and facilities
         ready_and_working_task_list = list(
@@ -561,7 +563,12 @@ class BaseProject(object, metaclass=ABCMeta):
         ready_and_working_task_list = sort_task_list(
             ready_and_working_task_list,
             task_priority_rule,
-            absence_time_list=self.absence_time_list,
+            # the logs have one entry per step: the absence steps as indices of the logs
+            absence_time_list=[
+                absence_time // unit_time
+                for absence_time in self.absence_time_list
+                if absence_time % unit_time == 0
+            ],
         )
 
         # 3. Allocate ready tasks to free workers and facilities
